@@ -11,6 +11,7 @@ inductive Err
   | value   -- ValueError
   | index   -- IndexError
   | key     -- KeyError
+  | type    -- TypeError
 deriving DecidableEq, Repr
 
 /-! ### sorted search with re-check (`argsort` + `searchsorted(…, sorter=i)` + `!=`) -/
